@@ -475,11 +475,11 @@ def rk_annotation(ctx):
     from ..par import pmap
     results = pmap(_runner(ctx.repo, _ac_case), specs)
     q = "gene.collections:AnnotationCollection"
-    _report(ctx, "C20.RA", results, [(f"{q}.children", "sorted by start"), (f"{q}.__init__", "bounds inferred from children")])
+    _report(ctx, "C20.RN", results, [(f"{q}.children", "sorted by start"), (f"{q}.__init__", "bounds inferred from children")])
 
 
 RULES = [
     ("C20.RK", rk_genes),
     ("C20.RF", rk_feature_collections),
-    ("C20.RA", rk_annotation),
+    ("C20.RN", rk_annotation),
 ]
